@@ -1,5 +1,5 @@
 (* Driver around the extracted descriptor model (engine FDS, shared by C02/C04/C08).
-   case:  run <fixed 0|1> <capture 0|1> <failing pipe() calls: - or 0,2> <unopenable paths: - or 3,4>
+   case:  run <variant: 5 flags dupclose,bcap,capclose,capfail,bunop e.g. 11111 = the code as it is> <capture 0|1> <failing pipe() calls: - or 0,2> <unopenable paths: - or 3,4>
               <initial table: 0,1,2,5x>  <stages: K:FROM:REDIRS:PRINTS|...>
    K = E(xternal) B(uiltin) N(ot found); FROM = - | h | <N ; REDIRS = - or comma list of
    1tN 1aN 2tN 2aN (trunc/append to path N) 2&1 1&2 1&1 2&2 ; PRINTS = string of o / e or - *)
@@ -73,13 +73,16 @@ let () =
     match split_tab l with
     | ["run"; fx; cap; fails; unop; t0; stages] ->
       let d = dec_bytes in
-      let fixed = d fx = "1" and capture = d cap = "1" in
+      let fl = d fx in
+      let fb i = String.length fl > i && fl.[i] = '1' in
+      let v = { v_dupclose = fb 0; v_bcap = fb 1; v_capclose = fb 2; v_capfail = fb 3; v_bunop = fb 4 } in
+      let capture = d cap = "1" in
       let fails = ints (d fails) and unop = ints (d unop) in
       let sts = List.map parse_stage (String.split_on_char '|' (d stages)) in
       let t0 = parse_table (d t0) in
       let fail_at k = List.mem (int_of_nat k) fails in
       let openable p = not (List.mem (int_of_nat p) unop) in
-      let r = run_pipeline fixed fail_at openable { p_stages = sts; p_capture = capture } { tab = t0; tr = [] } in
+      let r = run_pipeline v fail_at openable { p_stages = sts; p_capture = capture } { tab = t0; tr = [] } in
       let n = List.length sts in
       let kids = List.map (fun k ->
         string_of_int (int_of_nat k.k_idx) ^ ":" ^ out_s k.k_out ^ ":" ^ table_s k.k_proc.tab) r.res_kids in
@@ -89,9 +92,10 @@ let () =
       let obj_at fd = match lookup t0 (nat_of_int fd) with Some (o, _) -> o | None -> OInh (nat_of_int fd) in
       let per = List.mapi (fun i st ->
         let last = i + 1 = n in
-        let cls = (if known_here fixed (nat_of_int i) st then ["here"] else [])
-                  @ (if known_dupleak last capture st then ["dupleak"] else [])
-                  @ (if known_capredir last capture st then ["capredir"] else [])
+        let cls = (if known_dupleak v last capture st then ["dupleak"] else [])
+                  @ (if known_capredir v last capture st then ["capredir"] else [])
+                  @ (if known_capdup last capture st then ["capdup"] else [])
+                  @ (if is_single_builtin { p_stages = sts; p_capture = capture } && lookahead_leak st.s_redirs then ["lookahead"] else [])
                   @ (if List.exists out_of_scope st.s_redirs then ["oos"] else []) in
         let i0 = std_in (obj_at 0) (nat_of_int i) st in
         let o0 = std_out (obj_at 1) (nat_of_int n) capture (nat_of_int i) in
